@@ -32,6 +32,12 @@ Definition is_alpha (c : ascii) : bool :=
   ((65 <=? n)%nat && (n <=? 90)%nat) || ((97 <=? n)%nat && (n <=? 122)%nat) || (n =? 95)%nat.
 Definition is_alnum (c : ascii) : bool := is_alpha c || is_digit c.
 
+(* identifiers as the lexer reads them *)
+Fixpoint all_chars (p : ascii -> bool) (s : string) : bool :=
+  match s with EmptyString => true | String c r => p c && all_chars p r end.
+Definition ident_ok (s : string) : bool :=
+  match s with EmptyString => false | String c r => is_alpha c && all_chars is_alnum r end.
+
 Inductive lstate := LNone | LNum (cur : string) | LName (cur : string) | LStar.
 
 Definition num_of_string (s : string) : option N :=
@@ -291,3 +297,50 @@ Fixpoint defined (rho : env) (e : sexpr) {struct e} : Prop :=
   | SZoo => False
   | _ => True
   end.
+
+(* ------------------------------------------------------------------ the fragment C12's theorems speak about *)
+Close Scope R_scope.
+Definition is_mul (e : sexpr) : bool := match e with SMul _ _ => true | _ => false end.
+Definition is_rat (e : sexpr) : bool := match e with SRat _ _ => true | _ => false end.
+
+(* what may stand as an ordered factor of a Mul (evaluated sympy trees satisfy this):
+   no Mul directly inside a Mul; x**-1 never has a bare Rational base; the as_base_exp quirk
+   (unit-fraction base with a negative symbolic exponent) is left to the correspondence *)
+Definition factor_ok (f : sexpr) : bool :=
+  negb (is_mul f) &&
+  match f with
+  | SPow b ex =>
+      if negexp ex then
+        match eshape_of false ex with
+        | ENegOne => negb (is_rat b)
+        | _ => negb (is_unit_frac b)
+        end
+      else true
+  | _ => true
+  end.
+
+Fixpoint wf (e : sexpr) : bool :=
+  match e with
+  | SAdd ts => negb (match ts with [] => true | _ => false end) && forallb (fun t => wf t && negb (is_add t)) ts
+  | SMul neg fs => negb (match fs with [] => true | _ => false end) && forallb (fun f => wf f && factor_ok f) fs
+  | SPow b ex => wf b && wf ex
+  | SInt _ => true
+  | SRat p q => (2 <=? q)%Z
+  | SSym name => negb (String.eqb name "E")
+  | SFun name args => known_fun name && match args with [a] => wf a | _ => false end
+  | SE => true
+  | SZoo => false
+  end.
+
+
+Fixpoint names_ok (e : sexpr) : bool :=
+  match e with
+  | SAdd ts => forallb names_ok ts
+  | SMul _ fs => forallb names_ok fs
+  | SPow b ex => names_ok b && names_ok ex
+  | SSym s => ident_ok s
+  | SFun s args => ident_ok s && forallb names_ok args
+  | _ => true
+  end.
+
+Definition fragment (e : sexpr) : bool := wf e && names_ok e.
